@@ -981,6 +981,8 @@ fn ops(m: &Model, ctx: &mut Ctx) {
                     _ => None,
                 },
                 ".character_set" => Some(Ok(Val::Opaque("charset".into()))),
+                // every element kind used in these scenarios (values, ranges, FROM, SIZE) is PER-visible
+                ".per_visible" if args.len() == 1 => Some(Ok(Val::Bool(true))),
                 ".len" => match args.first() { Some(Val::Opaque(s)) if s == "charset" => Some(Ok(Val::int(128))), _ => None },
                 ".iter" => match args.first() {
                     Some(Val::Opaque(s)) if s == "charset" => Some(Ok(Val::List((0u8..128).map(|i| Val::Tuple(vec![Val::int(i as i128), Val::Char(i as char)])).collect()))),
@@ -1040,6 +1042,61 @@ fn ops(m: &Model, ctx: &mut Ctx) {
                 }
                 Ok(o) => ctx.fail_closed("C15.top", &format!("[{}]: try_new evaluates to {}", k, o.show())),
                 Err(e) => ctx.fail_closed("C15.top", &format!("[{}]: {}", k, e)),
+            }
+        }
+        // set operations between FROM constraints (and other kinds) written directly on the type: the alphabets combine as
+        // sets — `FROM ("ACE") ^ FROM ("B".."D")` permits `C` only (folded as ranges it came out as B..D) —, a SIZE operand
+        // is no alphabet (ignored in an intersection, makes a union not PER-visible)
+        let size = {
+            let mut f = BTreeMap::new();
+            f.insert("min".to_string(), Val::some(Val::Ctor("Integer".into(), vec![Val::int(1)], BTreeMap::new())));
+            f.insert("max".to_string(), Val::some(Val::Ctor("Integer".into(), vec![Val::int(4)], BTreeMap::new())));
+            f.insert("extensible".to_string(), Val::Bool(false));
+            Val::Ctor("SizeConstraint".into(), vec![element(Val::Ctor("ValueRange".into(), vec![], f))], BTreeMap::new())
+        };
+        let setop = |base: Val, op: &str, operant: Val| {
+            let mut f = BTreeMap::new();
+            f.insert("base".to_string(), base);
+            f.insert("operator".to_string(), Val::ctor(op));
+            f.insert("operant".to_string(), element(operant));
+            Val::Ctor("SetOperation".into(), vec![Val::Ctor("SetOperation".into(), vec![], f)], BTreeMap::new())
+        };
+        let set = |s: &str| -> std::collections::BTreeSet<char> { s.chars().collect() };
+        let tops: Vec<(&str, Val, Option<std::collections::BTreeSet<char>>)> = vec![
+            ("FROM (\"ACE\") ^ FROM (\"B\"..\"D\")", setop(from(sv("ACE")), "Intersection", from(vr("B", "D"))), Some(set("C"))),
+            ("FROM (\"B\"..\"D\") ^ FROM (\"ACE\")", setop(from(vr("B", "D")), "Intersection", from(sv("ACE"))), Some(set("C"))),
+            ("FROM (\"ACE\") | FROM (\"B\"..\"D\")", setop(from(sv("ACE")), "Union", from(vr("B", "D"))), Some(set("ABCDE"))),
+            ("FROM (\"a\"..\"c\") ^ SIZE (1..4)", setop(from(vr("a", "c")), "Intersection", size.clone()), Some(set("abc"))),
+            ("SIZE (1..4) ^ FROM (\"a\"..\"c\")", setop(size.clone(), "Intersection", from(vr("a", "c"))), Some(set("abc"))),
+            ("FROM (\"a\"..\"c\") | SIZE (1..4)", setop(from(vr("a", "c")), "Union", size.clone()), None),
+        ];
+        for (what, setv, want) in tops {
+            ctx.oblige("C15.ops", &format!("top-level:{}", what), true);
+            let mut spec = BTreeMap::new();
+            spec.insert("set".to_string(), setv);
+            spec.insert("extensible".to_string(), Val::Bool(false));
+            let c = Val::Ctor("Subtype".into(), vec![Val::Ctor("ElementSetSpecs".into(), vec![], spec)], BTreeMap::new());
+            let mut env = Env::new();
+            env.insert(params.first().cloned().unwrap_or("constraint".into()), c);
+            env.insert(params.get(1).cloned().unwrap_or("string_type".into()), Val::ctor("IA5String"));
+            let got = ev2.eval_fn_body(&tn.block, &mut env).and_then(|r| match r {
+                Val::Ctor(ok, p, _) if ok == "Ok" => match p.first() {
+                    Some(Val::Ctor(s2, q, _)) if s2 == "Some" => denotation(q.first().unwrap_or(&Val::Unit)).map(Some),
+                    Some(Val::Ctor(s2, _, _)) if s2 == "None" => Ok(None),
+                    o => Err(format!("result {:?}", o.map(|x| x.show()))),
+                },
+                // a warning for the definition is acceptable where nothing sensible can be emitted
+                Val::Ctor(e, _, _) if e == "Err" => Ok(want.clone()),
+                o => Err(format!("result {}", o.show())),
+            });
+            match got {
+                Ok(g) => {
+                    if g.clone().filter(|x| !x.is_empty()) != want.clone().filter(|x| !x.is_empty()) {
+                        ctx.violate("C15.ops", "top-level-set-operation", &tn.file, tn.line,
+                            &format!("`IA5String ({})` yields the alphabet {:?}; the characters the constraint allows are {:?} (the operands' alphabets combined as sets)", what, g.map(|x| x.iter().collect::<String>()), want.map(|x| x.iter().collect::<String>())));
+                    }
+                }
+                Err(e) => ctx.fail_closed("C15.ops", &format!("[top-level {}]: {}", what, e)),
             }
         }
     } else {
